@@ -102,3 +102,22 @@ def call_storage_refs(F, S, f):
                         and (st.heap[t[1]].origin or ('ctor',))[0] in ('ctor', 'copy', 'aggregate', 'temp'):
                     out.append(f'{contracts.short(o.cls)}::{name} refers to a local / temporary {contracts.short(st.heap[t[1]].cls)} object of the call')
     return sorted(set(out))
+
+
+def call_storage_rule(ck, F, prefix, floor=200, only=None):
+    """<prefix>.no-reference-to-call-storage over every factory (or those `only` selects)."""
+    import contracts
+    import wire as _wire
+    from symex import Sym
+    R_cs = ck.rule(f'{prefix}.no-reference-to-call-storage', 'no reference or pointer member of an object that outlives the factory call (a node in a pool or a '
+                   'table) designates storage of the call itself -- a parameter taken by value, a local or a temporary: after the call '
+                   'returns such a member dangles (it reads a dead stack slot, and two nodes built that way alias each other)', floor=floor)
+    S2 = Sym(F, opaque=contracts.default_opaque(F), max_depth=64)
+    for f in sorted(_wire.all_factories(F), key=lambda f: f['id']):
+        if only is not None and not only(f):
+            continue
+        r = call_storage_refs(F, S2, f)
+        sid = '::'.join(contracts.fn_qname(f['id']).split('::')[-2:]) + '/' + str(len(f['params']))
+        if r is None:
+            continue
+        ck.check(R_cs, sid, not r, f'{f["id"]}: ' + '; '.join(r[:3]), loc=f['loc'], fn=f['id'])
